@@ -26,6 +26,7 @@ import (
 	"google.golang.org/grpc"
 
 	"github.com/kubewharf/kubebrain/pkg/metrics"
+	"github.com/kubewharf/kubebrain/pkg/verifhook"
 )
 
 var (
@@ -170,6 +171,7 @@ func (pw *prometheusWrapper) mustGetGaugeVec(name string, labels []metrics.T) (v
 		return vec
 	}
 
+	verifhook.Yield("prom.vec.miss", name)
 	// create a new metric
 	pw.gaugeVecMu.Lock()
 	defer pw.gaugeVecMu.Unlock()
@@ -195,6 +197,7 @@ func (pw *prometheusWrapper) mustGetCounterVec(name string, labels []metrics.T) 
 		return vec
 	}
 
+	verifhook.Yield("prom.vec.miss", name)
 	// create a new metric
 	pw.counterVecMu.Lock()
 	defer pw.counterVecMu.Unlock()
@@ -220,6 +223,7 @@ func (pw *prometheusWrapper) mustGetHistogramVec(name string, labels []metrics.T
 		return vec
 	}
 
+	verifhook.Yield("prom.vec.miss", name)
 	// create a new metric
 	pw.histogramVecMu.Lock()
 	defer pw.histogramVecMu.Unlock()
